@@ -116,7 +116,30 @@ def mutate(r, kind, doc):
     """returns (mutated doc, expected verdict in strict, expected verdict in lax) or None"""
     d = copy.deepcopy(doc)
     hugrs = [d] if kind == "hugr" else (d["modules"] if kind == "package" else [])
-    op = r.choice(["none", "delete", "unknown-key", "bad-tag", "wrong-container", "unknown-key-nested"])
+    op = r.choice(["none", "delete", "unknown-key", "bad-tag", "wrong-container", "unknown-key-nested", "enum-value"])
+    if op == "enum-value":
+        # an enumerated field (type bounds "C" / "A") given a near miss: the names of the Python enum members, other
+        # cases, other letters; the value set is part of "same types" in both formalisms
+        spots = []
+
+        def walk(x):
+            if isinstance(x, dict):
+                for k2, v2 in x.items():
+                    if k2 in ("bound", "b") and v2 in ("C", "A"):
+                        spots.append((x, k2))
+                    walk(v2)
+            elif isinstance(x, list):
+                for v2 in x:
+                    walk(v2)
+
+        walk(d)
+        if not spots:
+            return None
+        tgt, k2 = r.choice(spots)
+        tgt[k2] = r.choice(["Copyable", "Any", "Copyable", "Any", "c", "a", "copyable", "Linear", "E", "", "TypeBound.Any"])
+        # (a "b" / "bound" key may also sit in free-form JSON, where anything goes: only the agreement of the two
+        # formalisms is judged, no verdict is expected)
+        return op, d, None, None
     if op == "none":
         return "none", d, True, True
     if kind == "testing":
@@ -247,7 +270,7 @@ def acceptance(ctx, mode, cases):
     for case in cases:
         kind, mop, doc, exp = case["kind"], case["mutation"], case["doc"], case["expect"][0 if strict else 1]
         ctx.count(f"monitor:acceptance-agreement-{mode}")
-        ctx.count("expect:" + ("accept" if exp else "reject"))
+        ctx.count("expect:" + ("either" if exp is None else "accept" if exp else "reject"))
         js = val[kind].is_valid(doc)
         try:
             model[kind].model_validate_json(json.dumps(doc))
@@ -265,7 +288,7 @@ def acceptance(ctx, mode, cases):
                 key = "strict-rebuild-leaves-stale-nested-validators"
             ctx.disc(key, f"acceptance-disagreement[{mode}.{mop}]", rec, {"published-schema": js},
                      {"pydantic": pd}, stratum="acceptance", case=rec)
-        elif js != exp:
+        elif exp is not None and js != exp:
             # both agree with each other but not with the operator's intent: a harness expectation problem
             ctx.disc(None, f"operator-expectation[{mode}.{mop}]", rec, exp, js, stratum="acceptance", case=rec,
                      prop="HARNESS")
